@@ -83,13 +83,21 @@ func runC18(a *A) {
 		a.ruleDominatedBy(start, fname(start)+"#stopped-check-before-add", func(in ssa.Instruction) bool { return isStoppedOp(in, "LoadInt32") }, isLifeAdd,
 			"the stopped flag is tested before lifecycle.Add", "lifecycle.Add is not preceded by a test of the stopped flag: a Start after Stop would spawn unjoined goroutines")
 		cas := false
+		hosts := []*ssa.Function{stop}
 		allInstrs(stop, func(in ssa.Instruction) {
-			if isStoppedOp(in, "CompareAndSwapInt32") {
-				cas = true
-				_, held := L.Held(in)[key]
-				a.Check(held, fname(stop)+"#flag-under-startMu", in.Pos(), "Stop sets the stopped flag under startMu", "Stop sets the stopped flag outside startMu: a concurrent Start can Add after Wait began")
+			if h := casHelper(in); h != nil {
+				hosts = append(hosts, h) // `if !s.markStopped() { return }`: the claim made by a helper
 			}
 		})
+		for _, host := range hosts {
+			allInstrs(host, func(in ssa.Instruction) {
+				if isStoppedOp(in, "CompareAndSwapInt32") {
+					cas = true
+					_, held := L.Held(in)[key]
+					a.Check(held, fname(stop)+"#flag-under-startMu", in.Pos(), "Stop sets the stopped flag under startMu", "Stop sets the stopped flag outside startMu: a concurrent Start can Add after Wait began")
+				}
+			})
+		}
 		if !cas {
 			a.Bad(fname(stop)+"#flag-under-startMu", stop.Pos(), "Stop does not claim the stopped flag with a compare-and-swap: it is not idempotent")
 		}
@@ -417,7 +425,7 @@ func (a *A) ruleStopSequence() {
 	// CAS dominates close(done)
 	n := a.ruleDominatedBy(fn, fname(fn)+"#cas-before-close", func(in ssa.Instruction) bool {
 		c, ok := in.(*ssa.Call)
-		return ok && c.Call.StaticCallee() != nil && c.Call.StaticCallee().Name() == "CompareAndSwapInt32"
+		return ok && c.Call.StaticCallee() != nil && (c.Call.StaticCallee().Name() == "CompareAndSwapInt32" || casHelper(in) != nil)
 	}, isClose("done"), "close(done) runs only for the caller that won the compare-and-swap on stopped (close-once, Stop idempotent)", "close(done) is not guarded by the compare-and-swap on stopped: a second Stop panics on a closed channel")
 	if n == 0 {
 		a.Bad(fname(fn)+"#cas-before-close", fn.Pos(), "Stop does not close the done channel")
@@ -427,7 +435,7 @@ func (a *A) ruleStopSequence() {
 		if isClose("done")(in) {
 			ok := guardedByValue(in.Block(), func(v ssa.Value) bool {
 				c, ok := v.(*ssa.Call)
-				return ok && c.Call.StaticCallee() != nil && c.Call.StaticCallee().Name() == "CompareAndSwapInt32"
+				return ok && c.Call.StaticCallee() != nil && (c.Call.StaticCallee().Name() == "CompareAndSwapInt32" || casHelper(c) != nil)
 			}, true)
 			a.Check(ok, fname(fn)+"#close-on-winning-edge", in.Pos(), "close(done) is on the edge where the CAS succeeded", "close(done) is reachable when the CAS on stopped failed")
 		}
@@ -1484,4 +1492,30 @@ func firstPos(p, q token.Pos) token.Pos {
 		return p
 	}
 	return q
+}
+
+
+// casHelper: in is a call of a helper the change introduced whose only result is, on every way out, the verdict of a
+// compare-and-swap made in the helper (`func (s *Stream) markStopped() bool { lock; defer unlock; return CAS(&s.stopped, 0, 1) }`).
+// The call stands for that compare-and-swap; what the helper holds while making it is judged inside the helper.
+func casHelper(in ssa.Instruction) *ssa.Function {
+	c, ok := in.(*ssa.Call)
+	if !ok {
+		return nil
+	}
+	h := c.Call.StaticCallee()
+	if h == nil || h.Blocks == nil || !isNewFunc(h) || h.Signature.Results().Len() != 1 || !isBool(h.Signature.Results().At(0).Type()) {
+		return nil
+	}
+	leaves := returnLeaves(h, 0)
+	if len(leaves) == 0 {
+		return nil
+	}
+	for _, l := range leaves {
+		cc, isCall := l.(*ssa.Call)
+		if !isCall || cc.Call.StaticCallee() == nil || cc.Call.StaticCallee().Name() != "CompareAndSwapInt32" || cc.Parent() != h {
+			return nil
+		}
+	}
+	return h
 }
